@@ -372,6 +372,19 @@ def run_shard(ctx, args):
             n = int(rng.choice([63, 64, 65, 127, 128, 129, 255, 256, 257]))
             ctx.count("size_window_instances")
         F, D, tag = gen(rng, n)
+        if n >= 63 and rng.integers(2):
+            # many facilities, a dozen tiny flows, small distances: the
+            # values fit one byte although the indices do not
+            F = [[0] * n for _ in range(n)]
+            for _ in range(int(rng.integers(3, 14))):
+                i, j = (int(v) for v in rng.choice(n, 2, replace=False))
+                F[i][j] = int(rng.integers(1, 3))
+            i = n - 1 - int(rng.integers(0, 3))
+            F[i][int(rng.integers(0, n - 4))] = 1      # a high index for sure
+            fl = int(rng.integers(2, 7))
+            D = [[abs(a // max(1, n // fl) - b // max(1, n // fl))
+                  for b in range(n)] for a in range(n)]
+            tag = "sparse-tiny-large-n"
         lb_o, ub_o = trivial(F, D)
         if ub_o >= 10 ** 15:
             ctx.count("skipped_ub_too_large")
